@@ -1,3 +1,4 @@
+import re
 """C10 — discovered dependencies count exactly like declared implicit inputs (DESIGN 5.10)."""
 from facts import AnalysisBroken
 from model import (ret_value_class, dstr, strip, fact_holds, mentions_field, mentions_call, mentions_var,
@@ -114,10 +115,31 @@ def run(ctx):
     ls = loops_over(pd, lambda d: isp(d) or (isinstance(d, dict) and d.get('k') == 'un' and isp(strip(d.get('e')))))
     ctx.check('C10.P3', len(ls) == 1 and ls[0]['full'], pd.name, 'ProcessDepfileDeps:loop', pd.loc,
               'one full loop over the parsed dependency list: %s' % [(l['style'], l['full'], l['bound']) for l in ls])
+    # the values that hold the looked-up node: variables assigned from State::GetNode
+    nodevars = set()
+    for e in pd.events():
+        if e['k'] in ('asg', 'decl') and 'State::GetNode' in dstr(e.get('r') if e['k'] == 'asg' else e.get('init')):
+            tgt = strip(e['l']) if e['k'] == 'asg' else {'k': 'var', 'n': e.get('n', '')}
+            if isinstance(tgt, dict) and tgt.get('k') == 'var':
+                nodevars.add(tgt['n'].split('#')[0])
+    hasnode = lambda d: 'State::GetNode' in dstr(d) or any(mentions_var(d, v) for v in nodevars)
+    filled = set()      # local containers that receive the node in the loop
+
+    def stores_node(x):
+        # `*slot = node`, `slots[k] = node` (a store through something that is not a plain local), or the
+        # node appended to a local container that is spliced in afterwards
+        if x['k'] == 'asg' and x['op'] == '=' and isinstance(strip(x['l']), dict) and \
+                strip(x['l']).get('k') != 'var' and hasnode(x['r']):
+            return True
+        if x['k'] == 'call' and lastname(x.get('name')) in ('push_back', 'emplace_back') and \
+                any(hasnode(a) for a in x['args']):
+            o = strip(x.get('recv'))
+            if isinstance(o, dict) and o.get('k') == 'var':
+                filled.add(o['n'].split('#')[0])
+            return True
+        return False
     for l in ls:
-        every_iteration_passes(ctx, 'C10.P3', pd, l, lambda x: x['k'] == 'asg' and
-                               isinstance(strip(x['l']), dict) and 'implicit_dep' in dstr(x['l']) and
-                               x['op'] == '=', 'a node is stored for every parsed dependency',
+        every_iteration_passes(ctx, 'C10.P3', pd, l, stores_node, 'a node is stored for every parsed dependency',
                                'ProcessDepfileDeps:dep-skipped')
         every_iteration_passes(ctx, 'C10.P3', pd, l, lambda x: x['k'] == 'call' and x.get('name') == 'Node::AddOutEdge',
                                'AddOutEdge for every parsed dependency', 'ProcessDepfileDeps:out-edge-skipped')
@@ -132,7 +154,9 @@ def run(ctx):
             if kind == 'insert':
                 npre += 1
                 cnt_ = ' '.join(dstr(deep_resolve(pd, a)) for a in e['args'][1:])
-                ctx.check('C10.P3', 'depfile_ins' in cnt_ and 'size()' in cnt_, pd.name, 'ProcessDepfileDeps:prealloc-count', pd.where(e),
+                whole = [v for v in filled if re.search(r'\b%s\b[^,]*begin\(\)' % re.escape(v), cnt_) and
+                         re.search(r'\b%s\b[^,]*end\(\)' % re.escape(v), cnt_)]
+                ctx.check('C10.P3', ('depfile_ins' in cnt_ and 'size()' in cnt_) or bool(whole), pd.name, 'ProcessDepfileDeps:prealloc-count', pd.where(e),
                           'space is reserved for all parsed entries (%s)' % cnt_[:80])
     ctx.check('C10.P3', npre >= 1, pd.name, 'ProcessDepfileDeps:no-reservation', pd.loc, 'ProcessDepfileDeps reserves the slots it fills')
     # who may touch the parsed lists
